@@ -8,26 +8,58 @@ From V.C31 Require Import Tokens GenPrinter Model Spec ProofsRT ProofsNames.
 Import ListNotations.
 Open Scope string_scope.
 
-(* every well-formed first-order type over the definitions in scope — numerics, None, tuples of any
-   length, and applications of bool/str/array/frozenarray/Option/struct definitions to type and
-   nat-const arguments, to any nesting depth — prints to a text that reads back as the same type *)
-Theorem print_parse_roundtrip : forall E t, env_ok E -> wf E t = true -> parse E (print t) = Some t.
-Proof. exact roundtrip. Qed.
-Print Assumptions print_parse_roundtrip.
+(* FULL-STRENGTH STATEMENT (the property as given): every well-formed first-order type over the
+   definitions in scope — numerics, None, tuples of any length, applications of
+   bool/str/array/frozenarray/Option/struct definitions to type and nat-const arguments, any nesting —
+   prints to a text that reads back as the same type. *)
+Definition print_parse_roundtrip_statement : Prop :=
+  forall E t, env_ok E -> wf E t = true -> parse E (print t) = Some t.
 
-(* the hypotheses are satisfiable on a non-trivial instance (1-tuple, 0-tuple, nested array in a
-   sole-argument tuple, bounded frozenarray parameter) *)
 Definition E0 : env :=
   [("int", DNum KInt); ("nat", DNum KNat); ("float", DNum KFloat); ("tuple", DTuple); ("bool", DApp [] true true);
    ("array", DApp [DPType false false; DPNat] false true); ("Option", DApp [DPType false false] true true);
    ("frozenarray", DApp [DPType true true; DPNat] true true); ("Box", DApp [DPType false false] true true)].
-Definition t0 : ty :=
-  TApp "Option" [TTuple [TNum KInt; TTuple []; TTuple [TApp "array" [TApp "Box" [TTuple [TNone]]; CNat 3]];
-                         TApp "frozenarray" [TTuple [TApp "bool" []; TNum KFloat]; CNat 0]]].
-Example roundtrip_hyps_satisfiable : env_ok E0 /\ wf E0 t0 = true /\ parse E0 (print t0) = Some t0.
-Proof. split; [intros []; reflexivity | split; vm_compute; reflexivity]. Qed.
+Lemma E0_ok : env_ok E0.
+Proof. intros []; reflexivity. Qed.
 
-(* what Python's parser makes of the printed text (the intermediate step of the round trip) *)
+(* It is REFUTED by the printer as it is in /repo (the maintainers keep this output: golden tests
+   encode it).  Witnesses, each replayed on the real code by the check (known findings):
+     (int,)  prints `(int)`              which reads back as  int;
+     Option[(int, nat)] prints `Option[(int, nat)]`  which Python reads as Option[int, nat]: rejected;
+     Option[()] prints `Option[()]`      which Python reads as Option with no argument: rejected. *)
+Theorem print_parse_roundtrip_refuted :
+  (wf E0 (TTuple [TNum KInt]) = true /\
+     parse E0 (print (TTuple [TNum KInt])) = Some (TNum KInt)) /\
+  (wf E0 (TApp "Option" [TTuple [TNum KInt; TNum KNat]]) = true /\
+     parse E0 (print (TApp "Option" [TTuple [TNum KInt; TNum KNat]])) = None) /\
+  (wf E0 (TApp "Option" [TTuple []]) = true /\
+     parse E0 (print (TApp "Option" [TTuple []])) = None) /\
+  ~ print_parse_roundtrip_statement.
+Proof.
+  repeat split; try (vm_compute; reflexivity).
+  intros H. specialize (H E0 (TTuple [TNum KInt]) E0_ok eq_refl). vm_compute in H. discriminate.
+Qed.
+Print Assumptions print_parse_roundtrip_refuted.
+
+(* PARTIAL: it holds for every well-formed first-order type with no 1-tuple anywhere and no applied
+   definition whose sole argument is a tuple ([safe], decidable; these are exactly the two places
+   where Python reads the printed text differently, see [python_reads_printed_type]).  What is
+   missing for the full statement: 1-tuples and sole tuple arguments. *)
+Theorem print_parse_roundtrip_partial :
+  forall E t, env_ok E -> wf E t = true -> safe t = true -> parse E (print t) = Some t.
+Proof. exact roundtrip. Qed.
+Print Assumptions print_parse_roundtrip_partial.
+
+(* the hypotheses are satisfiable on a non-trivial instance (0-tuple, 2- and 3-tuples, tuple as one
+   of two arguments, nested generic applications, bounded frozenarray parameter) *)
+Definition t0 : ty :=
+  TApp "Option" [TApp "array" [TTuple [TNum KInt; TTuple []; TApp "array" [TTuple [TNone; TApp "Box" [TApp "bool" []]]; CNat 3];
+                         TApp "frozenarray" [TTuple [TApp "bool" []; TNum KFloat; TNum KNat]; CNat 0]]; CNat 2]].
+Example roundtrip_hyps_satisfiable : env_ok E0 /\ wf E0 t0 = true /\ safe t0 = true /\ parse E0 (print t0) = Some t0.
+Proof. split; [exact E0_ok | repeat split; vm_compute; reflexivity]. Qed.
+
+(* what Python's parser makes of the printed text of ANY first-order type (full strength): [ast_of]
+   reads a printed 1-tuple as its element and a sole argument as the whole subscript *)
 Theorem python_reads_printed_type : forall t, fo t = true -> py_parse (print t) = Some (ast_of t).
 Proof. exact python_reads. Qed.
 Print Assumptions python_reads_printed_type.
